@@ -259,6 +259,8 @@ func TestC08(t *testing.T) { Run(t, propC08()) }
 
 func FuzzGenC08(f *testing.F) { RunFuzz(f, propC08()) }
 
+func TestRaceC08(t *testing.T) { RunConcurrent(t, propC08(), 4) }
+
 // alienByte returns a byte (not the gap symbol) for which the matrix has no score at all.
 func alienByte(m align.SubstitutionMatrix) (byte, bool) {
 	used := map[byte]bool{255: true}
